@@ -4,6 +4,7 @@
 From Coq Require Import ZArith List Bool.
 Import ListNotations.
 Require Import SZV.Base.Bytes SZV.Base.BitPack SZV.Proofs.Bytes_proofs SZV.Proofs.BitPack_proofs.
+Require SZV.Gen.SrcFacts SZV.Model.InlineUnpack SZV.Proofs.InlineUnpack_proofs.
 Local Open Scope Z_scope.
 
 (* 16/32/64-bit big-endian writers and readers: w = 2, 4, 8 (and any other width) *)
@@ -73,3 +74,16 @@ Proof. split; [reflexivity|split; [discriminate|reflexivity]]. Qed.
 Example C13_ex_pack : unpack 3 11 (pack 3 [1;7;0;5;2;3;6;4;7;7;1]) = [1;7;0;5;2;3;6;4;7;7;1]
   /\ pack 3 [1;7;0;5;2;3;6;4;7;7;1] = [0x3C; 0x54; 0xF4; 0xFC; 0x80].
 Proof. split; reflexivity. Qed.
+
+(* the unpacker of the residual bits that every decompressor carries inline (114 sites of one form, counted from the source on every
+   run; the mask helpers it calls are translated from ByteToolkit.c): w bits from bit k of a byte, possibly running into the next byte,
+   are exactly those bits, and the byte cursor advances exactly when the field reaches the byte's end *)
+Theorem C13_inline_unpacker : forall k w b0 b1, 0 <= k < 8 -> 1 <= w < 8 -> 0 <= b0 < 256 -> 0 <= b1 < 256 ->
+  SZV.Model.InlineUnpack.inline_extract k w b0 b1 = SZV.Model.InlineUnpack.spec_extract k w b0 b1 /\
+  SZV.Model.InlineUnpack.inline_advance k w = (if k + w <? 8 then 0 else 1).
+Proof. exact SZV.Proofs.InlineUnpack_proofs.inline_extract_correct. Qed.
+Print Assumptions C13_inline_unpacker.
+Theorem C13_inline_unpacker_sites :
+  (SZV.Gen.SrcFacts.src_inline_unpack_sites =? SZV.Gen.SrcFacts.src_inline_unpack_exact) && (0 <? SZV.Gen.SrcFacts.src_inline_unpack_sites) = true.
+Proof. exact SZV.Proofs.InlineUnpack_proofs.inline_sites_ok. Qed.
+Print Assumptions C13_inline_unpacker_sites.
